@@ -48,11 +48,12 @@ def gt0(e):
 
 
 NAMINGS = {
-    "plain": {"x": "x", "y": "y", "a": "a", "b": "b", "c": "c", "d": "d", "r": "r"},
+    # j: the counter of a loop whose body does not mention it (a statement repeated n times)
+    "plain": {"x": "x", "y": "y", "a": "a", "b": "b", "c": "c", "d": "d", "r": "r", "j": "j"},
     "generated": {"x": "tmp", "y": "tmp_0", "a": "ifthenelse_result", "b": "temp_x", "c": "temp_c",
-                  "d": "<cond>ifthenelse_cond", "r": "temp_r"},
+                  "d": "<cond>ifthenelse_cond", "r": "temp_r", "j": "tmp_1"},
     "tagged": {"x": "<p>a", "y": "<state>y", "a": "temp__p_a", "b": "temp__state_y", "c": "<p>c", "d": "tmp_1",
-               "r": "<p>r"},
+               "r": "<p>r", "j": "ifthenelse_result"},
 }
 
 
@@ -82,6 +83,8 @@ def templates(n):
     T["r[1]=r[1]+y"] = ("assign", n["r"], 1, P.Sum((P.Subscript(r, 1), y)))
     T["r[i]=r[i]+i"] = ("assign-loop", n["r"], V("i"), P.Sum((P.Subscript(r, V("i")), V("i"))))
     T["r[i]=f(i)+y"] = ("assign-loop", n["r"], V("i"), P.Sum((call("<func>f", V("i")), y)))
+    T["x=f(g(y)) xN"] = ("assign-repeat", n["x"], n["j"], call("<func>f", call("<func>g", y)))
+    T["x=a?b xN"] = ("assign-repeat", n["x"], n["j"], P.If(gt0(c), a, b))
     T["x,y=h(x,y)"] = ("call", (n["x"], n["y"]), "<func>h", (x, y), {})
     T["x=f(y,k=a)stmt"] = ("call", (n["x"],), "<func>f", (y,), {"k": a})
     T["x=f(g(y))stmt"] = ("call", (n["x"],), "<func>f", (call("<func>g", y),), {})
@@ -121,6 +124,10 @@ def make_stmt(tname, naming, guard, sid, deps):
     if t[0] == "assign-loop":
         _, lhs, sub, rhs = t
         return Assign(id=sid, assignee=lhs, assignee_subscript=(sub,), expression=rhs, loops=[("i", 0, 2)],
+                      condition=cond, depends_on=deps)
+    if t[0] == "assign-repeat":
+        _, lhs, counter, rhs = t
+        return Assign(id=sid, assignee=lhs, assignee_subscript=(), expression=rhs, loops=[(counter, 0, 2)],
                       condition=cond, depends_on=deps)
     if t[0] == "call":
         _, assignees, fid, params, kw = t
@@ -281,7 +288,7 @@ def initial_store(spec, valuation):
 
 
 def valuations(spec):
-    uses_c = any(t in ("x=a?b", "x=f?g", "x=if-in-cond", "x=if-in-then", "x=if-in-else", "x=f(a?b)", "x=same-if-twice",
+    uses_c = any(t in ("x=a?b", "x=a?b xN", "x=f?g", "x=if-in-cond", "x=if-in-then", "x=if-in-else", "x=f(a?b)", "x=same-if-twice",
                        "x=same-if-twice2") for t, _, _, _ in spec)
     uses_d = any(t in ("x=if-in-then", "x=if-in-else", "x=same-if-twice", "x=same-if-twice2") for t, _, _, _ in spec)
     gs = {g for _, _, g, _ in spec}
